@@ -165,6 +165,7 @@ package gorm
 //@   when db.clone > 0
 //@   modifies nothing
 //@   ensures fresh-result: fresh(result)
+//@   ensures chain-in-progress: result.clone == 0 && result.Statement.DB == result [C06,C16,C15]
 //@   ensures parent-handle-untouched: objUnchanged(db) [C06,C13,C18,C05]
 //@   ensures parent-statement-untouched: objUnchanged(db.Statement) [C06,C13,C18,C05]
 //@   ensures keeps-skiphooks: result.Statement.SkipHooks == db.Statement.SkipHooks [C13]
@@ -177,6 +178,7 @@ package gorm
 //@   when db.clone > 0
 //@   modifies nothing
 //@   ensures fresh-result: fresh(result)
+//@   ensures chain-in-progress: result.clone == 0 && result.Statement.DB == result [C06,C16,C15]
 //@   ensures parent-handle-untouched: objUnchanged(db) [C06,C13,C18,C05]
 //@   ensures parent-statement-untouched: objUnchanged(db.Statement) [C06,C13,C18,C05]
 //@   ensures keeps-skiphooks: result.Statement.SkipHooks == db.Statement.SkipHooks [C13]
